@@ -512,7 +512,7 @@ Definition ex_reg : regcase :=
   {| rg_id := 6464%N;
      rg_a := ([(-0x17p-2); (-0x3p-2); 0x5p-2; (-0x15p-2); 0xdp-2; (-0x7p-3); (-0x1p+2); 0x25p-3; 0x15p-3; 0x25p-3; (-0x3p-1); (-0x13p-2); (-0x3p-1); (-0x21p-3)])%float;
      rg_b := ([(-0x7p-1); (-0xbp-2); 0x11p-3; (-0x1p+3); 0x1p+0; (-0xfp-3); (-0x15p-3); 0x3bp-3; 0x9p-1; 0xbp-2; (-0x13p-3); (-0x31p-3); (-0x1p-1); (-0x11p-3)])%float;
-     rg_strided := true; rg_oracle := true; rg_msle := false;
+     rg_lay := 1%N; rg_oracle := true; rg_msle := false;
      rg_out := ([0xbp-2; 0xddb6db6db6db7p-51; 0x1b324924924925p-51; 0xfp-3; 0xba80654549047p-52; 0xc874c6e9a69bdp-52; 0xc874c6e9a69bdp-52; nan])%float |}.
 Example ex_reg_accepted : oracle_reg ex_reg = 0%N /\ rg_oracle ex_reg = true /\ rg_a ex_reg <> [] /\ rg_b ex_reg <> [].
 Proof. split; [vm_compute; reflexivity|]. split; [reflexivity|]. split; discriminate. Qed.
